@@ -56,6 +56,9 @@ type Step struct {
 	R int    `json:"r,omitempty"` // route: 0 txn.ExecRequest, 1 db.ExecRequest(ctx with txn), 2 collection API (ctx with txn)
 	U bool   `json:"u,omitempty"` // begin: read-only; mkindex: unique; list: showDeleted
 	C bool   `json:"c,omitempty"` // begin: db.NewConcurrentTxn instead of db.NewTxn (still used from one goroutine)
+	// Alt (create update delete): the alternative call of the route - collection API: CreateMany / Save /
+	// DeleteWithFilter on _docID; GraphQL: list input / filter on _docID instead of the docID argument
+	Alt bool `json:"alt,omitempty"`
 }
 
 // Case is the whole input.
@@ -120,6 +123,10 @@ func drawOp0(t *rapid.T, actor, ndocs int, label string) Step {
 		}
 	}
 	st.R = rapid.IntRange(0, 2).Draw(t, label+"route")
+	switch st.K {
+	case "create", "update", "delete":
+		st.Alt = rapid.IntRange(0, 3).Draw(t, label+"alt") == 0
+	}
 	switch st.K {
 	case "create", "delete", "get", "exists":
 		st.D = rapid.IntRange(0, ndocs-1).Draw(t, label+"doc")
